@@ -432,9 +432,8 @@ func (p *parser) chain() *node {
 			if i > 0 && !ops[i-1].implied && level(ops[i-1].op) >= 4 {
 				p.amb("juxtaposition right of ^ * / %")
 			}
-			if i+1 < len(ops) && ops[i+1].op == "^" && !ops[i+1].implied {
-				p.amb("juxtaposition left of ^")
-			}
+			// a(b)^c: the exponent binds before any multiplication under every convention
+			// (juxtaposition is at most as tight as ^), so a*(b^c) is THE parse: judged.
 		}
 	}
 	// fold by level, highest first, left to right
